@@ -1,6 +1,9 @@
 //! bloom family: replays Bloom filter cases on the real crate (op codes: tools/families/bloom.py).
-//! Items are `i64`; the crate hashes them itself (the h0/h1 arguments of the case file are
-//! consumed by the model only).
+//! Items are `i64` (ops 1-3) or, for ops 20-22, values of other types whose `Hash` impl makes several
+//! or long `write` calls (`&str`, `String`, tuples of `u64`, `&[u8]`, `u128`); the crate hashes them
+//! itself (the h0/h1 arguments of the case file are consumed by the model only).
+use std::hash::Hash;
+
 use datasketches::bloom::{BloomFilter, BloomFilterBuilder};
 
 use crate::{Family, Ob, ERR, PANIC};
@@ -19,6 +22,18 @@ impl Fam {
 
     fn get_mut(&mut self, i: i128) -> &mut BloomFilter {
         self.slots[i as usize].as_mut().unwrap()
+    }
+}
+
+/// insert (20) / contains (21) / contains_and_insert (22) of an item of any hashable type
+fn item_op<T: Hash>(f: &mut BloomFilter, code: i64, item: T) -> Ob {
+    match code {
+        20 => {
+            f.insert(item);
+            vec![]
+        }
+        21 => vec![f.contains(&item) as i128],
+        _ => vec![f.contains_and_insert(&item) as i128],
     }
 }
 
@@ -142,6 +157,27 @@ impl Family for Fam {
                 let mut c = self.get(slot).clone();
                 c.insert(a[1] as i64);
                 vec![c.contains(&(a[1] as i64)) as i128]
+            }
+            20..=22 => {
+                // a = slot, kind, h0, h1, payload...
+                let (kind, p) = (a[1], &a[4..]);
+                let bytes = || -> Vec<u8> { p.iter().map(|b| *b as u8).collect() };
+                let f = self.get_mut(slot);
+                match kind {
+                    1 => {
+                        let s = String::from_utf8(bytes()).unwrap();
+                        item_op(f, code, s.as_str())
+                    }
+                    6 => item_op(f, code, String::from_utf8(bytes()).unwrap()),
+                    2 => item_op(f, code, (p[0] as u64, p[1] as u64)),
+                    3 => item_op(f, code, (p[0] as u64, p[1] as u64, p[2] as u64, p[3] as u64)),
+                    4 => {
+                        let v = bytes();
+                        item_op(f, code, v.as_slice())
+                    }
+                    5 => item_op(f, code, (p[0] as u64 as u128) | ((p[1] as u64 as u128) << 64)),
+                    _ => vec![PANIC],
+                }
             }
             19 => {
                 // round-trip check: [copy == original, image length]
